@@ -1,6 +1,7 @@
 package checks
 
 import (
+	"encoding/json"
 	"fmt"
 	"reflect"
 	"sort"
@@ -17,7 +18,10 @@ import (
 // elements. Everything demanded comes from the statement:
 //
 //	(a) an element whose flag is not true is neither modified nor deleted          <shape>/unwritable-modified|unwritable-deleted
-//	(b) no element's flag differs afterwards                                        <shape>/flag-altered
+//	(b) no element's flag differs afterwards                                        <shape>/flag-altered (a changeable element the write
+//	                                                                                 addresses, or any element under a full write),
+//	                                                                                 <shape>/protected-flag-altered (flag not true before),
+//	                                                                                 <shape>/unaddressed-flag-altered
 //	(c) elements the write does not address do not change                           <shape>/unaddressed-changed
 //	(d) ... and do not influence acceptance: the same write against a second World
 //	    that differs only in one unaddressed element (its flag, or its presence)
@@ -31,8 +35,19 @@ import (
 //
 // Open defects (known findings): a filter-less full write replaces the list whatever the flags say
 // (D3: full/unwritable-modified, full/unwritable-deleted, full/flag-altered) and writes that mention the
-// flag through a selector, an identifier-less item or a delete-elements filter alter it (D6:
-// <shape with flag>/flag-altered). Inside these classes (e), (f, flags aside), (c) and (d) stay asserted.
+// flag through a selector, an identifier-less item or a delete-elements filter alter it ON A CHANGEABLE
+// ELEMENT THEY ADDRESS (D6: <shape with flag>/flag-altered). Inside these classes (e), (f, flags aside),
+// (c) and (d) stay asserted; a flag that changes on a protected or on an unaddressed element has its own
+// signature and is not covered by D6.
+//
+// The oracle's snapshots (the list handed to SetData, the state before the write, the state carried from
+// one write of a history to the next) are DEEP copies taken before the write is delivered: the store
+// hands out lists whose elements share every nested value with it, and a write that edits a nested value
+// in place would otherwise edit the oracle's "before" along with the store.
+//
+// One history in three is BLIND: the store is set once and never read while 2-3 writes are delivered;
+// the reference is carried forward from the verdicts on the tap alone (error result: unchanged; success:
+// the fold) and the store is read once at the end                                 blind/<deviation>
 
 var c04Fns = []model.FunctionType{
 	model.FunctionTypeLoadControlLimitListData,
@@ -49,7 +64,17 @@ var c04FlagField = map[model.FunctionType]string{
 }
 
 var c04Shapes = []string{"full", "partial-ids", "partial-ids+unknown", "partial-ids+flag", "noid", "noid+flag", "selector", "selector+flag",
-	"delete-selector", "delete-elements", "delete-elements(flag)", "delete-selector-elements", "delete-selector-elements(flag)", "delete-selector+partial-ids", "delete-elements+partial-ids", "delete-selector+selector"}
+	"delete-selector", "delete-elements", "delete-elements(flag)", "delete-selector-elements", "delete-selector-elements(flag)", "delete-selector+partial-ids", "delete-elements+partial-ids", "delete-selector+selector",
+	"selector(empty)", "delete-selector(empty)", "two-cmds"}
+
+// shapes a blind history draws from: those for which the statement fixes the outcome of an accepted write
+// and that lie outside the open findings D3/D6 (a full write and every write mentioning the flag are judged
+// write by write only, where the known deviation can be told from a new one)
+var c04BlindShapes = []string{"partial-ids", "partial-ids+unknown", "noid", "selector", "delete-selector", "delete-elements", "delete-selector-elements",
+	"delete-selector+partial-ids", "delete-elements+partial-ids", "delete-selector+selector", "delete-selector(empty)"}
+
+// sub-shapes of the two commands of a "two-cmds" datagram
+var c04SubShapes = []string{"partial-ids", "selector", "delete-selector", "delete-selector-elements", "noid"}
 
 const c04Dom = 6
 
@@ -57,14 +82,18 @@ func init() {
 	rig.Register(&rig.Check{
 		ID:    "C04",
 		Floor: 200,
-		Rule: "case = (list function of {loadControlLimitListData, setpointListData, deviceConfigurationKeyValueListData, two flag-less controls}, focal write shape of 16, block): histories of 1-3 real write datagrams " +
-			"from a bound peer against a list of 2-4 elements with flags true/false/absent (60% of the writes have the focal shape, the others a random one), every write judged against the state before it; " +
+		Rule: "case = (list function of {loadControlLimitListData, setpointListData, deviceConfigurationKeyValueListData, two flag-less controls}, focal write shape of 19, block): histories of 1-3 real write datagrams " +
+			"from a bound peer against a list of 1-4 identified elements (stored in any order, one list in six with an additional element without identifier) with flags true/false/absent (60% of the writes have the focal shape, the others a random one; " +
+			"one flag-mentioning write in three carries nothing but the flag; selectors name one identifier or nothing at all; one shape puts two commands into one datagram), every write judged against a deep copy of the state before it; " +
 			"whenever the write leaves an element unaddressed the same write is also sent to a second World that differs only in that element's flag (or presence) and the verdicts are compared. " +
+			"One history in three is blind: 2-3 writes back to back on a store that is set once and read once at the end, the reference carried forward from the verdicts on the tap. " +
 			"A case is non-trivial if at least 20 writes were judged, at least one was accepted and (for flagged types) at least one rejected; distinct = distinct (function, focal shape, set of (shape, verdict, pair compared)).",
 		Assumptions: []string{
 			"write handling is synchronous when no approval callback is registered: the result datagram is on the tap when HandleSpineMesssage returns",
 			"accepted = success result (ack requested) or silence (no ack requested); rejected = error result",
-			"the addressed set: identifiers of a partial write, the selector match, every element for identifier-less, delete-elements and filter-less writes",
+			"the addressed set: identifiers of a partial write, the selector match (every element for a selector that names no field), every element for identifier-less, delete-elements and filter-less writes; for a datagram with two commands the union",
+			"what an accepted partial write through a selector that selects several elements leaves behind is not fixed by the statement: (f) is not applied to selector(empty); an accepted delete through the empty selector has deleted every element",
+			"a write is the write datagram: a success result for a datagram with two commands says that the changes of both commands are applied",
 			"that a write addressing only changeable elements is accepted is not demanded (C03); it is counted as expected-accept-but-rejected",
 			"the items of a datagram are taken as the receiver decodes them (JSON fidelity is C18's subject)",
 		},
@@ -72,9 +101,9 @@ func init() {
 			Name: "writes",
 			Cases: func(t rig.Tier) int {
 				if t == rig.Thorough {
-					return len(c04Fns) * len(c04Shapes) * 40
+					return len(c04Fns) * len(c04Shapes) * 34
 				}
-				return len(c04Fns) * len(c04Shapes) * 25
+				return len(c04Fns) * len(c04Shapes) * 21
 			},
 			Run:   c04Case,
 			Procs: 2,
@@ -85,9 +114,70 @@ func init() {
 type c04Write struct {
 	shape     string
 	u         rig.Update
+	u2        *rig.Update  // second command of the same datagram (shape two-cmds)
+	emptySel  bool         // the selector of the filter names no field at all ({}): it selects every element
 	addressed map[int]bool // identifiers (of the domain) the write addresses; may name absent elements
 	all       bool         // addresses every element
 	flagShape bool         // the write mentions the flag
+	flagOnly  bool         // ... and nothing else
+}
+
+func (w *c04Write) String() string {
+	s := w.u.String()
+	if w.emptySel {
+		s += " [selector replaced by the empty selector {}]"
+	}
+	if w.u2 != nil {
+		s += " || second command: " + w.u2.String()
+	}
+	return s
+}
+
+// c04Deep copies a value with everything it points to.
+func c04Deep(v reflect.Value) reflect.Value {
+	switch v.Kind() {
+	case reflect.Ptr:
+		if v.IsNil() {
+			return reflect.Zero(v.Type())
+		}
+		p := reflect.New(v.Type().Elem())
+		p.Elem().Set(c04Deep(v.Elem()))
+		return p
+	case reflect.Struct:
+		s := reflect.New(v.Type()).Elem()
+		s.Set(v)
+		for i := 0; i < v.NumField(); i++ {
+			if s.Field(i).CanSet() {
+				s.Field(i).Set(c04Deep(v.Field(i)))
+			}
+		}
+		return s
+	case reflect.Slice:
+		if v.IsNil() {
+			return reflect.Zero(v.Type())
+		}
+		s := reflect.MakeSlice(v.Type(), v.Len(), v.Len())
+		for i := 0; i < v.Len(); i++ {
+			s.Index(i).Set(c04Deep(v.Index(i)))
+		}
+		return s
+	case reflect.Interface:
+		if v.IsNil() {
+			return reflect.Zero(v.Type())
+		}
+		s := reflect.New(v.Type()).Elem()
+		s.Set(c04Deep(v.Elem()))
+		return s
+	}
+	return v
+}
+
+func c04DeepItems(in []reflect.Value) []reflect.Value {
+	out := make([]reflect.Value, len(in))
+	for i, v := range in {
+		out[i] = c04Deep(v)
+	}
+	return out
 }
 
 func c04Changeable(li *rig.ListInfo, it reflect.Value) bool {
@@ -121,12 +211,18 @@ func c04NoFlag(li *rig.ListInfo, items []reflect.Value) []reflect.Value {
 	return out
 }
 
+// c04Key: the identifier of a stored element; the (at most one) element without identifier has its own key.
+func c04Key(li *rig.ListInfo, it reflect.Value) string {
+	if k, ok := li.KeyOf(it); ok {
+		return k
+	}
+	return "<no identifier>"
+}
+
 func c04ByKey(li *rig.ListInfo, items []reflect.Value) map[string]reflect.Value {
 	m := map[string]reflect.Value{}
 	for _, it := range items {
-		if k, ok := li.KeyOf(it); ok {
-			m[k] = it
-		}
+		m[c04Key(li, it)] = it
 	}
 	return m
 }
@@ -162,17 +258,33 @@ func c04Item(c *rig.Ctx, li *rig.ListInfo, id int) reflect.Value {
 	return it
 }
 
-// c04GenWrite draws a write of the given shape against old (ids = identifiers of old, ascending).
-func c04GenWrite(c *rig.Ctx, li *rig.ListInfo, shape string, old []reflect.Value, ids []int) (w c04Write, ok bool) {
+// c04Ids: the identifiers of the domain carried by the elements of a list, ascending, with their elements.
+func c04Ids(li *rig.ListInfo, items []reflect.Value) (ids []int, byId map[int]reflect.Value) {
+	byId = map[int]reflect.Value{}
+	for id := 0; id < c04Dom; id++ {
+		for _, it := range items {
+			if li.Matches(it, id) {
+				if _, dup := byId[id]; !dup {
+					ids = append(ids, id)
+				}
+				byId[id] = it
+			}
+		}
+	}
+	return ids, byId
+}
+
+// c04GenWrite draws a write of the given shape against old (any order; at most one element without identifier).
+func c04GenWrite(c *rig.Ctx, li *rig.ListInfo, shape string, old []reflect.Value) (w c04Write, ok bool) {
 	r := c.Rand
 	w = c04Write{shape: shape, addressed: map[int]bool{}, u: rig.Update{SelKey: -1, DelSel: -1}}
 	w.flagShape = strings.Contains(shape, "flag")
 	if w.flagShape && li.WriteCheck < 0 {
 		return w, false
 	}
-	byId := map[int]reflect.Value{}
-	for i, id := range ids {
-		byId[id] = old[i]
+	ids, byId := c04Ids(li, old)
+	if len(ids) == 0 || len(old) == 0 {
+		return w, false
 	}
 	var absent []int
 	for id := 0; id < c04Dom; id++ {
@@ -199,6 +311,15 @@ func c04GenWrite(c *rig.Ctx, li *rig.ListInfo, shape string, old []reflect.Value
 		return ids[r.Intn(len(ids))]
 	}
 	pf := c04PayloadFields(li)
+	// one flag-mentioning write in three carries the flag and nothing else
+	w.flagOnly = w.flagShape && r.Intn(3) == 0
+	strip := func(it reflect.Value) {
+		if w.flagOnly {
+			for _, i := range pf {
+				it.Field(i).Set(reflect.Zero(it.Field(i).Type()))
+			}
+		}
+	}
 	switch shape {
 	case "full":
 		w.u.Kind, w.all = "full", true
@@ -216,6 +337,7 @@ func c04GenWrite(c *rig.Ctx, li *rig.ListInfo, shape string, old []reflect.Value
 			it := c04Item(c, li, id)
 			if w.flagShape {
 				c04SetFlag(li, it, inverse(byId[id]))
+				strip(it)
 			}
 			w.u.Items = append(w.u.Items, it)
 			w.addressed[id] = true
@@ -233,9 +355,10 @@ func c04GenWrite(c *rig.Ctx, li *rig.ListInfo, shape string, old []reflect.Value
 		it := c04Item(c, li, -1)
 		if w.flagShape {
 			c04SetFlag(li, it, inverse(old[r.Intn(len(old))]))
+			strip(it)
 		}
 		w.u.Items = []reflect.Value{it}
-	case "selector", "selector+flag":
+	case "selector", "selector+flag", "selector(empty)":
 		if !li.SelCoversKeys {
 			return w, false
 		}
@@ -248,15 +371,22 @@ func c04GenWrite(c *rig.Ctx, li *rig.ListInfo, shape string, old []reflect.Value
 			} else {
 				c04SetFlag(li, it, 1+r.Intn(2))
 			}
+			strip(it)
 		}
 		w.u.Items = []reflect.Value{it}
 		w.addressed[w.u.SelKey] = true
-	case "delete-selector":
+		if shape == "selector(empty)" {
+			w.emptySel, w.all = true, true
+		}
+	case "delete-selector", "delete-selector(empty)":
 		if !li.SelCoversKeys {
 			return w, false
 		}
 		w.u.Kind, w.u.DelSel = "delete-sel", pick()
 		w.addressed[w.u.DelSel] = true
+		if shape == "delete-selector(empty)" {
+			w.emptySel, w.all = true, true
+		}
 	case "delete-elements", "delete-elements(flag)":
 		w.u.Kind, w.all = "delete-elem", true
 		if w.flagShape {
@@ -309,6 +439,21 @@ func c04GenWrite(c *rig.Ctx, li *rig.ListInfo, shape string, old []reflect.Value
 		w.u.Kind, w.u.DelSel, w.u.SelKey = "del+sel", pick(), pick()
 		w.u.Items = []reflect.Value{c04Item(c, li, -1)}
 		w.addressed[w.u.DelSel], w.addressed[w.u.SelKey] = true, true
+	case "two-cmds":
+		// two commands in one write datagram, each of a plain shape; both are drawn against the same list
+		a, oka := c04GenWrite(c, li, c04SubShapes[r.Intn(len(c04SubShapes))], old)
+		b, okb := c04GenWrite(c, li, c04SubShapes[r.Intn(len(c04SubShapes))], old)
+		if !oka || !okb {
+			return w, false
+		}
+		w.u, w.u2, w.all = a.u, &b.u, a.all || b.all
+		for id := range a.addressed {
+			w.addressed[id] = true
+		}
+		for id := range b.addressed {
+			w.addressed[id] = true
+		}
+		return w, true
 	default:
 		return w, false
 	}
@@ -330,6 +475,86 @@ func (w *c04Write) addresses(li *rig.ListInfo, it reflect.Value) bool {
 	return false
 }
 
+// c04Wire builds the write datagram (one or two commands) and returns it together with the updates as the
+// receiver decodes them (see listWorld.wire). An empty selector replaces the generated one on the command.
+func c04Wire(lw *listWorld, w *c04Write, ack bool) ([]byte, []rig.Update, model.MsgCounterType, error) {
+	li := lw.li
+	mc := lw.p.NextCounter()
+	us := []rig.Update{w.u}
+	if w.u2 != nil {
+		us = append(us, *w.u2)
+	}
+	var cmds []model.CmdType
+	for i := range us {
+		us[i].PartialFirst = mc%2 == 1 // the order of the two filters of one command carries no meaning
+		cmd := li.Cmd(us[i])
+		if w.emptySel {
+			for k := range cmd.Filter {
+				if f := reflect.ValueOf(&cmd.Filter[k]).Elem().Field(li.SelIdx); !f.IsNil() {
+					f.Set(reflect.New(li.SelT))
+				}
+			}
+		}
+		cmds = append(cmds, cmd)
+	}
+	dg := rig.Datagram(model.CmdClassifierTypeWrite, lw.peerCli, lw.local.Address(), mc, ack, nil, cmds[0])
+	dg.Datagram.Payload.Cmd = cmds
+	b, err := json.Marshal(dg)
+	if err != nil {
+		return nil, nil, mc, err
+	}
+	var d model.Datagram
+	if err := json.Unmarshal(b, &d); err != nil {
+		return nil, nil, mc, err
+	}
+	if len(d.Datagram.Payload.Cmd) != len(cmds) {
+		return nil, nil, mc, fmt.Errorf("datagram decodes to %d commands", len(d.Datagram.Payload.Cmd))
+	}
+	for i := range us {
+		cd, err := d.Datagram.Payload.Cmd[i].Data()
+		if err != nil {
+			return nil, nil, mc, err
+		}
+		if reflect.TypeOf(cd.Value) != li.PtrT {
+			return nil, nil, mc, fmt.Errorf("payload decodes to %T", cd.Value)
+		}
+		us[i].Items = c04DeepItems(li.Items(cd.Value))
+		if w.emptySel {
+			fp, fd := d.Datagram.Payload.Cmd[i].ExtractFilter()
+			n := 0
+			for _, f := range []*model.FilterType{fp, fd} {
+				if f == nil {
+					continue
+				}
+				if s := reflect.ValueOf(f).Elem().Field(li.SelIdx); !s.IsNil() && s.Elem().IsZero() {
+					n++
+				}
+			}
+			if n != 1 {
+				return nil, nil, mc, fmt.Errorf("the empty selector does not arrive as an empty selector")
+			}
+		}
+	}
+	return b, us, mc, nil
+}
+
+// c04Fold: the data an accepted write leaves behind according to the statement (all of its changes applied;
+// flags are compared separately). An empty selector selects every element. ok=false: the statement does not
+// fix the result (a partial write through a selector that selects several elements).
+func c04Fold(li *rig.ListInfo, w *c04Write, pre []reflect.Value, urs []rig.Update) (exp []reflect.Value, ok bool) {
+	if w.emptySel {
+		if w.shape == "delete-selector(empty)" {
+			return nil, true
+		}
+		return nil, false
+	}
+	exp = pre
+	for _, ur := range urs {
+		exp = li.RefApply(exp, ur)
+	}
+	return exp, true
+}
+
 type c04Verdict struct {
 	accepted, answered bool
 	resp               string
@@ -337,94 +562,217 @@ type c04Verdict struct {
 	detail             string
 }
 
-// c04Send sets world lw to list old, sends the write and judges it against the statement.
-func c04Send(c *rig.Ctx, lw *listWorld, w *c04Write, old []reflect.Value, ack bool) c04Verdict {
-	li := lw.li
-	lw.local.SetData(li.Fn, li.MkList(rig.CloneItems(old)))
-	pre := rig.CloneItems(li.Items(lw.local.DataCopy(li.Fn)))
-	var v c04Verdict
-	if rig.Multiset(pre) != rig.Multiset(old) {
-		v.devs = append(v.devs, "harness-setup")
-		v.detail = "SetData did not store the list: " + renderItems(pre)
-		return v
+func (v *c04Verdict) add(d string) {
+	for _, x := range v.devs {
+		if x == d {
+			return
+		}
 	}
-	b, ur, mc, err := lw.wire(w.u, model.CmdClassifierTypeWrite, lw.peerCli, lw.local.Address(), ack)
+	v.devs = append(v.devs, d)
+}
+
+// c04Deliver sends the write and reads the verdict from the tap.
+func c04Deliver(lw *listWorld, w *c04Write, ack bool) (v c04Verdict, urs []rig.Update) {
+	b, urs, mc, err := c04Wire(lw, w, ack)
 	if err != nil {
 		v.devs = append(v.devs, "harness-wire")
 		v.detail = err.Error()
-		return v
+		return v, nil
 	}
 	lw.p.Tap.Take()
 	if rec := lw.p.Raw(b); rec != "" {
 		v.devs = append(v.devs, "panic")
 		v.detail = rec
-		return v
+		return v, urs
 	}
 	res := rig.Classify(lw.p.Tap.Take(), mc)
 	v.resp = res.String()
-	got := rig.CloneItems(li.Items(lw.local.DataCopy(li.Fn)))
 	rejected := res.Errors > 0
 	v.accepted = !rejected && (res.Success > 0 || !ack)
 	v.answered = rejected || v.accepted
-	add := func(d string) {
-		for _, x := range v.devs {
-			if x == d {
-				return
-			}
-		}
-		v.devs = append(v.devs, d)
+	if rejected && res.Success > 0 {
+		v.add("answered-with-error-and-success")
 	}
+	return v, urs
+}
+
+// c04Send sets world lw to list old, sends the write and judges it against the statement.
+func c04Send(c *rig.Ctx, lw *listWorld, w *c04Write, old []reflect.Value, ack bool) c04Verdict {
+	li := lw.li
+	// neither the list handed to the store nor the snapshot read back share memory with old or with each other
+	lw.local.SetData(li.Fn, li.MkList(c04DeepItems(old)))
+	pre := c04DeepItems(li.Items(lw.local.DataCopy(li.Fn)))
+	preFP := rig.Multiset(pre) // the state before the write, rendered BEFORE the write is delivered
+	if preFP != rig.Multiset(old) {
+		return c04Verdict{devs: []string{"harness-setup"}, detail: "SetData did not store the list: " + renderItems(pre)}
+	}
+	v, urs := c04Deliver(lw, w, ack)
+	if len(v.devs) > 0 && !v.answered {
+		return v
+	}
+	got := c04DeepItems(li.Items(lw.local.DataCopy(li.Fn)))
 	if !v.answered {
 		return v
 	}
-	if rejected && res.Success > 0 {
-		add("answered-with-error-and-success")
+	if rig.Multiset(pre) != preFP {
+		v.add("harness-snapshot-changed")
+		v.detail = "the deep copy taken before the write changed while the write was handled"
 	}
+	rejected := !v.accepted
 	// (e) error => unchanged, exactly
-	if rejected && rig.Multiset(got) != rig.Multiset(pre) {
-		add("rejected-but-changed")
+	if rejected && rig.Multiset(got) != preFP {
+		v.add("rejected-but-changed")
 	}
 	// element level: (a) protected elements, (b) flags, (c) unaddressed elements
 	gotBy := c04ByKey(li, got)
 	elementLevel := false
 	for _, o := range pre {
-		k, _ := li.KeyOf(o)
-		g, present := gotBy[k]
+		g, present := gotBy[c04Key(li, o)]
 		sameButFlag := present && rig.Canon(c04NoFlag(li, []reflect.Value{g})[0]) == rig.Canon(c04NoFlag(li, []reflect.Value{o})[0])
 		if !c04Changeable(li, o) {
 			switch {
 			case !present:
-				add("unwritable-deleted")
+				v.add("unwritable-deleted")
 				elementLevel = true
 			case !sameButFlag:
-				add("unwritable-modified")
+				v.add("unwritable-modified")
 				elementLevel = true
 			}
 		}
 		if present && li.WriteCheck >= 0 && rig.Canon(g.Field(li.WriteCheck)) != rig.Canon(o.Field(li.WriteCheck)) {
-			add("flag-altered")
+			switch {
+			case w.shape == "full": // D3 class: the list is replaced as a whole, flags included
+				v.add("flag-altered")
+			case !c04Changeable(li, o):
+				v.add("protected-flag-altered")
+			case !w.addresses(li, o):
+				v.add("unaddressed-flag-altered")
+			default: // D6 class: a changeable element the write addresses
+				v.add("flag-altered")
+			}
 		}
 		if !w.addresses(li, o) && (!present || !sameButFlag) {
-			add("unaddressed-changed")
+			v.add("unaddressed-changed")
 			elementLevel = true
 		}
 	}
 	// (f) success => all changes applied: the fold, flags carried over from the old data
-	if v.accepted && !rejected && !elementLevel {
-		exp := li.RefApply(pre, ur)
-		if rig.Multiset(c04NoFlag(li, got)) != rig.Multiset(c04NoFlag(li, exp)) {
-			if w.shape == "partial-ids+unknown" {
-				add("unknown-id-acked-not-applied")
-			} else {
-				add("acked-but-differs")
+	if v.accepted && !elementLevel {
+		if exp, ok := c04Fold(li, w, pre, urs); ok && rig.Multiset(c04NoFlag(li, got)) != rig.Multiset(c04NoFlag(li, exp)) {
+			switch {
+			case w.shape == "partial-ids+unknown":
+				v.add("unknown-id-acked-not-applied")
+			case w.u2 != nil && rig.Multiset(c04NoFlag(li, got)) == rig.Multiset(c04NoFlag(li, li.RefApply(pre, urs[0]))):
+				v.add("acked-but-second-command-not-applied")
+			default:
+				v.add("acked-but-differs")
 			}
 			v.detail = "fold (flags aside): " + renderItems(c04NoFlag(li, exp))
 		}
 	}
 	if len(v.devs) > 0 {
-		v.detail = fmt.Sprintf("%s on %s, shape %s\n before: %s\n write:  %s\n answer: %s (ack requested: %v)\n after:  %s\n %s", "remote write", li.Fn, w.shape, renderItems(pre), ur, v.resp, ack, renderItems(got), v.detail)
+		v.detail = fmt.Sprintf("%s on %s, shape %s\n before: %s\n write:  %s\n answer: %s (ack requested: %v)\n after:  %s\n %s", "remote write", li.Fn, w.shape, renderItems(pre), w, v.resp, ack, renderItems(got), v.detail)
 	}
 	return v
+}
+
+// c04Blind: one blind history. The store is set once and not read until the end; the reference is carried
+// forward from the verdicts on the tap. Returns the number of writes judged, accepted, rejected.
+func c04Blind(c *rig.Ctx, lw *listWorld, focal string, start []reflect.Value) (judged, accepted, rejected int, hist []string) {
+	li, r := lw.li, c.Rand
+	initial := c04DeepItems(start)
+	ref := c04DeepItems(start)
+	lw.local.SetData(li.Fn, li.MkList(c04DeepItems(start)))
+	eligible := false
+	for _, s := range c04BlindShapes {
+		if s == focal {
+			eligible = true
+		}
+	}
+	writes := 2 + r.Intn(2)
+	broken := false
+	for k := 0; k < writes && len(ref) > 0; k++ {
+		shape := focal
+		if !eligible || r.Intn(5) >= 3 {
+			shape = c04BlindShapes[r.Intn(len(c04BlindShapes))]
+		}
+		w, ok := c04GenWrite(c, li, shape, ref)
+		if !ok {
+			continue
+		}
+		ack := r.Intn(6) != 0
+		v, urs := c04Deliver(lw, &w, ack)
+		for _, d := range v.devs {
+			c.Violate("blind/"+d, "%s %s in a blind history: %s\n history: %s", li.Fn, shape, v.detail, strings.Join(hist, "\n   "))
+			broken = true
+		}
+		if !v.answered {
+			if len(v.devs) == 0 {
+				c.Inconclusive("%s %s: write with ack request got neither success nor error result (%s)", li.Fn, shape, v.resp)
+			}
+			broken = true
+			break
+		}
+		judged++
+		verdict := "rejected"
+		if v.accepted {
+			verdict = "accepted"
+			accepted++
+			exp, ok := c04Fold(li, &w, ref, urs)
+			if !ok {
+				broken = true
+				break
+			}
+			ref = c04DeepItems(exp)
+		} else {
+			rejected++
+		}
+		c.Count("blind-writes:"+shape+":"+verdict, 1)
+		hist = append(hist, fmt.Sprintf("%s %s -> %s (%s)", shape, w.String(), verdict, v.resp))
+	}
+	if broken || judged == 0 {
+		return judged, accepted, rejected, hist
+	}
+	// the single read
+	got := c04DeepItems(li.Items(lw.local.DataCopy(li.Fn)))
+	var devs []string
+	gotBy := c04ByKey(li, got)
+	for _, o := range initial {
+		g, present := gotBy[c04Key(li, o)]
+		sameButFlag := present && rig.Canon(c04NoFlag(li, []reflect.Value{g})[0]) == rig.Canon(c04NoFlag(li, []reflect.Value{o})[0])
+		if !c04Changeable(li, o) {
+			switch {
+			case !present:
+				devs = append(devs, "unwritable-deleted")
+			case !sameButFlag:
+				devs = append(devs, "unwritable-modified")
+			}
+		}
+		if present && li.WriteCheck >= 0 && rig.Canon(g.Field(li.WriteCheck)) != rig.Canon(o.Field(li.WriteCheck)) {
+			devs = append(devs, "flag-altered")
+		}
+	}
+	if rig.Multiset(c04NoFlag(li, got)) != rig.Multiset(c04NoFlag(li, ref)) {
+		if accepted == 0 {
+			devs = append(devs, "rejected-but-changed")
+		} else {
+			devs = append(devs, "state-differs-from-fold-of-the-accepted-writes")
+		}
+	}
+	seen := map[string]bool{}
+	for _, d := range devs {
+		if seen[d] {
+			continue
+		}
+		seen[d] = true
+		c.Violate("blind/"+d, "%s: %d writes delivered back to back without reading the store (error result: data unchanged, success: all changes applied)\n initial:  %s\n history:\n   %s\n expected: %s\n read:     %s",
+			li.Fn, judged, renderItems(initial), strings.Join(hist, "\n   "), renderItems(ref), renderItems(got))
+	}
+	if len(devs) > 0 {
+		c.Witness(map[string]any{"function": li.Fn, "blind_history": hist, "initial": renderItems(initial), "expected": renderItems(ref), "read": renderItems(got)})
+	}
+	c.Count("blind_histories", 1)
+	return judged, accepted, rejected, hist
 }
 
 func c04Case(c *rig.Ctx) {
@@ -466,47 +814,66 @@ func c04Case(c *rig.Ctx) {
 		return
 	}
 	defer B.close()
+	A.li, B.li = li, li
 
 	histories := c.Pick(40, 80)
-	judged, accepted, rejected, pairs := 0, 0, 0, 0
+	judged, accepted, rejected, pairs, blindJudged := 0, 0, 0, 0, 0
 	classes := map[string]bool{}
 	var sample []string
 	for h := 0; h < histories; h++ {
-		// the list: 2-4 elements, identifiers a sorted subset of the domain, flags true/false/absent
-		n := 2 + r.Intn(3)
+		// the list: 1-4 elements in any order, identifiers a subset of the domain, flags true/false/absent;
+		// one list in six holds an element without identifier as well
+		n := 1 + r.Intn(4)
 		ids := append([]int(nil), r.Perm(c04Dom - 1)[:n]...)
-		sort.Ints(ids)
+		if r.Intn(3) > 0 {
+			sort.Ints(ids)
+		}
 		allTrue := r.Intn(4) == 0
 		var cur []reflect.Value
+		flagOf := func() int {
+			if allTrue {
+				return 1
+			}
+			return []int{1, 1, 2, 0}[r.Intn(4)]
+		}
 		for _, id := range ids {
 			it := li.NewItem(r, id)
-			fl := []int{1, 1, 2, 0}[r.Intn(4)]
-			if allTrue {
-				fl = 1
-			}
-			c04SetFlag(li, it, fl)
+			c04SetFlag(li, it, flagOf())
 			cur = append(cur, it)
+		}
+		if r.Intn(6) == 0 {
+			it := li.NewItem(r, -1)
+			c04SetFlag(li, it, flagOf())
+			at := r.Intn(len(cur) + 1)
+			cur = append(cur[:at:at], append([]reflect.Value{it}, cur[at:]...)...)
+			c.Count("lists-with-identifier-less-element", 1)
+		}
+		if n == 1 {
+			c.Count("lists-of-one-identified-element", 1)
+		}
+		if !orderedByNumericId(li, cur) {
+			c.Count("lists-stored-unsorted", 1)
+		}
+		if r.Intn(3) == 0 {
+			j, a, rj, hist := c04Blind(c, A, focal, cur)
+			judged, accepted, rejected, blindJudged = judged+j, accepted+a, rejected+rj, blindJudged+j
+			if j > 1 {
+				classes[fmt.Sprintf("blind:%d:%d", a, rj)] = true
+			}
+			if len(sample) == 0 && len(hist) > 1 {
+				sample = append([]string{"(blind history)"}, hist...)
+			}
+			continue
 		}
 		writes := 1 + r.Intn(3)
 		var hist []string
 		for k := 0; k < writes && len(cur) > 0; k++ {
 			shape := focal
 			if r.Intn(5) >= 3 {
-				shape = c04Shapes[r.Intn(ns)]
+				shape = c04Shapes[r.Intn(ns-1)] // two-cmds (the last shape) only where it is the focal shape
 			}
-			// identifiers of the current list (a history may have deleted some)
-			var curIds []int
-			for _, it := range cur {
-				for id := 0; id < c04Dom; id++ {
-					if li.Matches(it, id) {
-						curIds = append(curIds, id)
-					}
-				}
-			}
-			if len(curIds) != len(cur) {
-				break // an element outside the domain (cannot happen with well-formed writes)
-			}
-			w, ok := c04GenWrite(c, li, shape, cur, curIds)
+			curIds, _ := c04Ids(li, cur)
+			w, ok := c04GenWrite(c, li, shape, cur)
 			if !ok {
 				continue
 			}
@@ -525,6 +892,9 @@ func c04Case(c *rig.Ctx) {
 				rejected++
 			}
 			c.Count("writes:"+shape+":"+verdict, 1)
+			if w.flagOnly {
+				c.Count("flag-only-writes:"+shape+":"+verdict, 1)
+			}
 			// what the statement lets one expect where it speaks: all addressed elements exist and are changeable
 			expectAccept := true
 			exist := map[int]bool{}
@@ -536,7 +906,7 @@ func c04Case(c *rig.Ctx) {
 					expectAccept = false
 				}
 			}
-			if w.u.Kind == "partial" || w.u.Kind == "del+partial" {
+			if w.u2 == nil && (w.u.Kind == "partial" || w.u.Kind == "del+partial") {
 				for _, it := range w.u.Items {
 					for id := 0; id < c04Dom; id++ {
 						if li.Matches(it, id) && (!exist[id] || id == w.u.DelSel) {
@@ -545,13 +915,15 @@ func c04Case(c *rig.Ctx) {
 					}
 				}
 			}
-			if expectAccept && !v.accepted {
+			if w.u2 != nil {
+				expectAccept = false // not classified
+			} else if expectAccept && !v.accepted {
 				c.Count("expected-accept-but-rejected:"+shape, 1)
 			}
-			if !expectAccept && v.accepted {
+			if w.u2 == nil && !expectAccept && v.accepted {
 				c.Count("protected-or-absent-addressed-but-accepted:"+shape, 1)
 			}
-			hist = append(hist, fmt.Sprintf("%s %s -> %s (%s)", shape, w.u, verdict, v.resp))
+			hist = append(hist, fmt.Sprintf("%s %s -> %s (%s)", shape, w.String(), verdict, v.resp))
 			for _, d := range v.devs {
 				c.Violate(shape+"/"+d, "%s\n history: %s", v.detail, strings.Join(hist, "\n   "))
 			}
@@ -565,7 +937,7 @@ func c04Case(c *rig.Ctx) {
 			}
 			if len(un) > 0 && len(v.devs) == 0 {
 				j := un[r.Intn(len(un))]
-				alt := rig.CloneItems(cur)
+				alt := c04DeepItems(cur)
 				how := ""
 				if li.WriteCheck < 0 || r.Intn(4) == 0 {
 					alt = append(alt[:j:j], alt[j+1:]...)
@@ -584,7 +956,7 @@ func c04Case(c *rig.Ctx) {
 					c.Count("pairs:"+how, 1)
 					if vb.accepted != v.accepted {
 						c.Violate(shape+"/unaddressed-influences-acceptance", "the same write is %s in one World and %s in a World that differs only in an unaddressed element (%s)\n list A: %s\n list B: %s\n write:  %s\n answers: A %s, B %s",
-							verdict, map[bool]string{true: "accepted", false: "rejected"}[vb.accepted], how, renderItems(cur), renderItems(alt), w.u, v.resp, vb.resp)
+							verdict, map[bool]string{true: "accepted", false: "rejected"}[vb.accepted], how, renderItems(cur), renderItems(alt), w.String(), v.resp, vb.resp)
 					}
 					for _, d := range vb.devs {
 						c.Violate(shape+"/"+d, "%s", vb.detail)
@@ -595,7 +967,10 @@ func c04Case(c *rig.Ctx) {
 			if c.Failed() {
 				c.Witness(map[string]any{"function": fn, "focal_shape": focal, "history": hist, "list_before_last_write": renderItems(cur)})
 			}
-			cur = rig.CloneItems(li.Items(A.local.DataCopy(fn)))
+			cur = c04DeepItems(li.Items(A.local.DataCopy(fn)))
+			if r.Intn(2) == 0 { // the application may store its list in any order
+				r.Shuffle(len(cur), func(a, b int) { cur[a], cur[b] = cur[b], cur[a] })
+			}
 		}
 		if len(sample) == 0 && len(hist) > 1 {
 			sample = hist
@@ -603,6 +978,7 @@ func c04Case(c *rig.Ctx) {
 	}
 	c.Events(int64(judged + pairs))
 	c.Count("writes_judged", int64(judged))
+	c.Count("writes_judged_in_blind_histories", int64(blindJudged))
 	c.Count("pairs_compared", int64(pairs))
 	var cl []string
 	for k := range classes {
@@ -612,5 +988,5 @@ func c04Case(c *rig.Ctx) {
 	sort.Strings(cl)
 	c.Shape(fmt.Sprintf("%s/%s/%s", fn, focal, strings.Join(cl, ",")))
 	c.NonTrivial(judged >= 20 && accepted > 0 && (rejected > 0 || li.WriteCheck < 0))
-	c.Sample(map[string]any{"function": fn, "focal_shape": focal, "writes_judged": judged, "accepted": accepted, "rejected": rejected, "pairs": pairs, "one_history": sample})
+	c.Sample(map[string]any{"function": fn, "focal_shape": focal, "writes_judged": judged, "of_these_in_blind_histories": blindJudged, "accepted": accepted, "rejected": rejected, "pairs": pairs, "one_history": sample})
 }
